@@ -807,7 +807,7 @@ def tree_pool(tier):
     """declaration strings TLC draws sets from"""
     pool = []
     n1 = TREE_NAMES
-    n2 = ["Ab", "AB", "ABcd", "Bc"] if tier == "quick" else ["Ab", "AB", "aB", "ABcd", "Bc", "A1b"]
+    n2 = ["Ab", "AB", "ABcd"] if tier == "quick" else ["Ab", "AB", "aB", "ABcd", "Bc", "A1b"]
     for a in n1:
         pool += [a, a + "?"]
     for c in ["*Ab", "*CD"]:
@@ -908,7 +908,7 @@ def tree_check(prop, tier):
                 label="MCScpiTree explore(|Pool|=40, decls<=3)", heap="16g")
         sets += [x for x in sets3 if len(x["chosen"]) == 3]
     # negative control: without de-duplication a declaration collides with itself ("[A]:[A]")
-    s.model("MCScpiTree", tree_params(["Cd:[Ab]:[AB]", "Cd"], 2, "explore", [], dedup=False), expect_violation="BuildIffUnambiguous",
+    s.model("MCScpiTree", tree_params(["Cd:[Ab]:[AB]", "Cd"], 2, "explore", [], dedup=False), expect_violation="TreeOk",
             label="MCScpiTree legacy: own expansions not de-duplicated")
     amb = [x for x in sets if x["ambiguous"]]
     una = [x for x in sets if not x["ambiguous"] and x["chosen"]]
